@@ -424,6 +424,31 @@ def run_C20(ctx, proof_ok):
             "samples": [], "distribution": {k: int(v) for k, v in sorted(hits.items())}}
 
 
+def run_C04(ctx, proof_ok):
+    import ndc
+
+    E = epg()
+    r = lib.rng(4)
+    corpus = [c for c in load_corpus(ctx.prop) if "ops" in c]
+    cases = corpus + [ndc.gen_case(r, maxlen=budget(ctx.tier, 14, 22)) for _ in range(budget(ctx.tier, 250, 4000))]
+    n1, d1, dist1 = ndc.compare(cases, E)
+    n2, d2, dist2 = ndc.search_backends(r, E, budget(ctx.tier, 100, 2500))
+    n3, d3 = ndc.search_batched(r, E, budget(ctx.tier, 80, 2000))
+    ctx.violations.extend(d1 + d2 + d3)
+    modes = collections.Counter(c["mode"] for c in cases)
+    return {"evaluations": n1 + n2 + n3, "distinct_nontrivial": sum(1 for c in cases if len(c["ops"]) > 3) + n2 + n3,
+            "rule": "random sequences of T/E/Phi/P/R/SPOILER and shifts in 5 modes (n-D integer vectors, python-int and n-D mixed = "
+                    "back-end change mid-sequence, gridded float shifts, time accumulation C, gradient operator G; 1-3 spatial "
+                    "dimensions, pruning on/off): (1) wavenumber -> state tables of epgpy vs the Lean table model at K4; (2) the "
+                    "property: inverse Fourier sum of epgpy's stored states at a random position and off-resonance vs the Bloch "
+                    "isochromat computed by the Lean specification blochRunN; back-end search: the same sequence through shift-1d / "
+                    "shift-nd / shift-merge / shift-prune and with a switch mid-sequence hold identical content; batched shifts vs "
+                    "each signal alone",
+            "samples": [lib.jsonable(cases[-1])],
+            "distribution": {"model_cases": n1, "modes": dict(modes), **{k: int(v) for k, v in dist1.items()},
+                             "backend_cases": n2, **{"backend_" + k: int(v) for k, v in dist2.items()}, "batched_cases": n3}}
+
+
 def merge_results(a, b, rule):
     out = dict(a)
     out["evaluations"] = a["evaluations"] + b["evaluations"]
@@ -815,6 +840,19 @@ PROPS["C20"] = {
                 "shape); arrays enter as flat entry lists + shapes and numeric tests as predicates, so numpy's reductions "
                 "(any/all/allclose/max) and the flattening done by the harness are modelled, not verified; that the real "
                 "constructors call these guards on every path is decided by the class-driven search only"],
+}
+
+PROPS["C04"] = {
+    "lean_modules": ["EpgVerif.Props.C04"],
+    "tie": [],
+    "audit": "EpgVerif/Audit/C04.lean",
+    "run": run_C04,
+    "replay": replay_generic,
+    "theorems_hint": ["nd_is_bloch", "position_is_bloch", "get_shift", "synth_shiftF", "backend_shift_agree"],
+    "partial": ["proved for wavenumber indices in any commutative group (instance: (kx,ky,kz,t) integer lattice with positions and "
+                "off-resonance as characters), no pruning and no cap; lattice indices stand for gridded float wavenumbers that are "
+                "not merged (the property's side condition); merging/pruning, unique_1d/lexsort, add_at and the batch plumbing of "
+                "shiftmerge/shiftprune are tied by execution and by the back-end agreement search only"],
 }
 
 NOT_CLAIMED = {}
